@@ -308,6 +308,59 @@ def r_order(prog, R):
                 r.viol("regen#%d clears server cookie" % k, a.name, a.loc(c["ln"]), "client cookie replaced but the old server cookie kept (server would answer BADCOOKIE)")
 
 
+def r_const(prog, R):
+    r = R.rule("R-C17-CONST", "the 'local address changed' test that regenerates the client cookie is reflexive for every address family a connection's local address can have", floor=3, analysis="A-TAB switch coverage x producers of conn->self_ip")
+    fams = {}
+    # producers of conn->self_ip
+    for f in prog.funcs.values():
+        for b, i, c in f.calls():
+            if c.get("callee") == "memset" and const_val(call_arg(c, 1)) == 0:
+                a = strip(call_arg(c, 0))
+                if a is not None and a.get("k") == "un" and a["op"] == "&" and is_field(a["e"], "self_ip", "ares_conn"):
+                    fams[0] = f.loc(c["ln"])
+            if c.get("callee") == "ares_sockaddr_to_ares_addr":
+                a = strip(call_arg(c, 0))
+                if a is not None and a.get("k") == "un" and a["op"] == "&" and is_field(a["e"], "self_ip", "ares_conn"):
+                    g = prog.func("ares_sockaddr_to_ares_addr")
+                    for _, _, el in g.elements():
+                        if el["k"] == "asg" and is_field(el["e"]["l"], "family") and const_val(el["e"].get("r")) is not None:
+                            fams[const_val(el["e"]["r"])] = g.loc(el)
+    if not r.require(len(fams) >= 2, "producers of conn->self_ip not recognised: %s" % fams):
+        return
+    r.info["self_ip_families"] = sorted(fams)
+    eq = prog.func("ares_addr_equal", file="src/lib/ares_cookie.c")
+    # which test guards the regeneration
+    ap = prog.func("ares_cookie_apply")
+    if not any(c.get("callee") == "ares_addr_equal" for _, _, c in ap.calls()):
+        r.broke("ares_cookie_apply no longer compares addresses with ares_addr_equal")
+        return
+    covered = {}
+    for b in eq.blocks.values():
+        if b.term and b.term.get("cls") == "SwitchStmt":
+            for succ, vals in eq.switch_cases(b):
+                if not isinstance(vals, list):
+                    continue
+                # can this arm reach `return ARES_TRUE` without leaving through the common `return ARES_FALSE`?
+                seen, work, hit = set(), [succ], False
+                while work:
+                    x = work.pop()
+                    if x in seen:
+                        continue
+                    seen.add(x)
+                    for el in eq.blocks[x].els:
+                        if el["k"] == "ret" and name_of_const(el.get("e")) == "ARES_TRUE":
+                            hit = True
+                    work.extend(s2 for s2 in eq.blocks[x].succs if s2 is not None)
+                for v in vals:
+                    covered[const_val(v)] = hit
+    for fam, where in sorted(fams.items()):
+        k = "family %d comparable" % fam
+        if covered.get(fam):
+            r.ok(k, eq.loc(eq.ln))
+        else:
+            r.viol(k, eq.name, eq.loc(eq.ln), "a connection's local address can have family %d (set at %s) but ares_addr_equal can never report two such addresses equal: the client cookie is regenerated, and the server cookie dropped, on every transmission" % (fam, where))
+
+
 def run(prog, R, tier):
     R.assume("timeval_expired/timeval_is_set compute what their names say (numeric behaviour not decided)")
     r_fsm(prog, R)
@@ -315,4 +368,5 @@ def run(prog, R, tier):
     r_accept(prog, R)
     r_bound(prog, R)
     r_order(prog, R)
+    r_const(prog, R)
     C06.r_resend(prog, R, rid="R-C17-RESEND")
